@@ -17,6 +17,18 @@ fn alpha_narrow() -> Alpha {
     a
 }
 
+/// The set of keyspaces changes between the reopen cycles (create, delete, re-create); values stay small.
+fn alpha_names() -> Alpha {
+    let mut a = Alpha::empty();
+    a.ins = vec![(1, 0, 0), (2, 0, 1)];
+    a.create = vec![1, 2];
+    a.delete = vec![1, 2];
+    a.steps = false;
+    a.reopen = true;
+    a.max_reopen = 2;
+    a
+}
+
 fn alpha_wide() -> Alpha {
     let mut a = Alpha::empty();
     a.ins = vec![(0, 0, 0), (0, 0, 1), (0, 2, 0), (0, 1, 3), (1, 0, 0)];
@@ -53,6 +65,7 @@ pub fn passes(tier: &str) -> Vec<Pass> {
         mk("wide/batch-half-flushed", d.clone(), alpha_wide(), "batch_half_flushed", if q { 2 } else { 4 }, 1, if q { 3.0 } else { 120.0 }, Probe::Full),
         mk("wide/two-sealed-journals", d.clone(), alpha_wide(), "two_sealed_journals", if q { 2 } else { 4 }, 2, if q { 4.0 } else { 150.0 }, Probe::Full),
         mk("wide/two-sealed-journals/small-journal-limit", Cfg { maxj: true, ..d.clone() }, alpha_wide(), "two_sealed_journals", if q { 2 } else { 4 }, 1, if q { 3.0 } else { 150.0 }, Probe::Full),
+        mk("names/create-delete-recreate", d.clone(), alpha_names(), "", if q { 6 } else { 8 }, 4, if q { 5.0 } else { 150.0 }, Probe::Lite),
         mk("wide/journals-9-and-10", d.clone(), alpha_wide(), "journals_9_and_10", if q { 1 } else { 3 }, 1, if q { 3.0 } else { 150.0 }, Probe::Full),
         mk("wide/sealed-journal-half-flushed", d.clone(), alpha_wide(), "sealed_journal_x_half_flushed", if q { 2 } else { 4 }, 1, if q { 3.0 } else { 150.0 }, Probe::Full),
         mk("wide/sealed-journal-all-record-kinds", d.clone(), alpha_wide(), "sealed_journal_all_kinds", if q { 2 } else { 4 }, 1, if q { 3.0 } else { 150.0 }, Probe::Full),
